@@ -2,7 +2,8 @@
 import common as C
 import gen as G
 
-THEOREMS = []
+THEOREMS = ['empty_group_yields_identity', 'empty_group_is_none_under_mask', 'count_is_group_size', 'sum_is_wrapped_sum',
+            'accumulator_does_not_wrap_small_values', 'argmin_first_extremum', 'nonlocal_result_length', 'group_is_column']
 RULE = ('value-first random layouts (numeric/bool leaves, no NaN/inf) x 10 reducers x axis (0..depth-1, negative, some out of '
         'range) x mask_identity x keepdims; non-trivial = input has >= 2 leaves and the operation succeeded; distinct by case text')
 ASSUMPTIONS = ['float leaves are integer-valued (no rounding is modelled); NaN/inf excluded; complex/datetime leaves not generated',
